@@ -2,7 +2,7 @@
 import ast
 
 from ..model import AnalysisError, dotted, unparse
-from ..util import POS, FACTS, FACTS_I, U, enum_paths, walk_no_nested
+from ..util import resolved_text, POS, FACTS, FACTS_I, U, enum_paths, walk_no_nested
 from ..paths import call_attr, call_name
 
 V = 'scales/varz.py'
@@ -121,31 +121,48 @@ def r2(ctx):
     ctx.ob('C18.R2', f, '%s is unconditional' % f.name, not extra, 'control flow added around the update',
            'a skipped update is a lost increment / a stale gauge')
   # reservoir: created on first use under the same key, then sampled
-  txt = U(rec.node).replace(' ', '')
   params = [p for p in rec.params if p not in ('cls', 'self')]
   src, metric, val = params
-  ok = ('%s=VerifySource(%s)' % (src, src) in txt and 'VARZ_DATA[%s][%s]' % (metric, src) in txt and '.Sample(%s)' % val in txt)
-  ctx.ob('C18.R2', rec, 'percentile samples go to the reservoir of (metric, source)', ok, 'RecordPercentileSample shape changed', why)
   n_sample = 0
   for ev, ex in enum_paths(ctx, rec):
     n_sample += 1
-    ctx.ob('C18.R2', rec, 'every path records the sample once', len([e for e in ev if e.kind == 'call' and call_attr(e.node) == 'Sample']) == 1 and ex[0] == 'ret',
-           'a path does not call Sample exactly once', 'each recorded sample must reach the reservoir')
+    samples = [(i, e.node) for i, e in enumerate(ev) if e.kind == 'call' and call_attr(e.node) == 'Sample']
+    ok = len(samples) == 1 and ex[0] == 'ret' and [U(a) for a in samples[0][1].args] == [val]
+    ver = [e for e in ev if e.kind == 'call' and U(e.node.func) == 'VerifySource' and [U(a) for a in e.node.args] == [src]]
+    if ok:
+      i, c = samples[0]
+      recv = resolved_text(ev, i, c.func.value)
+      key_forms = ('cls.VARZ_DATA[%s][VerifySource(%s)]' % (metric, src), 'VarzReceiver.VARZ_DATA[%s][VerifySource(%s)]' % (metric, src),
+                   'cls.VARZ_DATA[%s][%s]' % (metric, src))
+      fresh = recv.startswith('_SampleSet(')
+      if fresh:
+        # the new reservoir must have been stored under the same (metric, source) key
+        stores = [(j, e.node) for j, e in enumerate(ev[:i]) if e.kind == 'stmt' and isinstance(e.node, ast.Assign) and isinstance(e.node.targets[0], ast.Subscript)]
+        ok = any(resolved_text(ev, j, st.targets[0]) in key_forms and resolved_text(ev, j, st.value).startswith('_SampleSet(') for j, st in stores)
+      else:
+        ok = recv in key_forms
+      ok = ok and bool(ver)
+    ctx.ob('C18.R2', rec, 'every sample goes, once, to the reservoir stored under (metric, verified source)', ok,
+           'sample path: %d Sample calls, receiver %s' % (len(samples), resolved_text(ev, samples[0][0], samples[0][1].func.value) if samples else None), why)
   # wiring of metric kinds
   vm = prog.func(V, 'VarzMetric.__init__')
   wiring = {}
   for ev, ex in enum_paths(ctx, vm):
     fs = FACTS(ev)
-    asg = [U(e.node.value) for e in ev if e.kind == 'stmt' and isinstance(e.node, ast.Assign) and U(e.node.targets[0]) == 'self._fn'
-           and U(e.node.value).startswith('VarzReceiver.')]
-    if not asg:
+    # the receiver selected on this path: the one VarzReceiver.* function assigned (to self._fn or a local)
+    RECV = ('VarzReceiver.SetVarz', 'VarzReceiver.RecordPercentileSample', 'VarzReceiver.IncrementVarz')
+    recv = sorted(set(U(e.node.value) for e in ev if e.kind == 'stmt' and isinstance(e.node, ast.Assign) and U(e.node.value) in RECV))
+    if not recv:
+      continue
+    if len(recv) != 1:
+      wiring.setdefault('?', set()).add(tuple(recv))
       continue
     if ('self.VARZ_TYPE==VarzType.Gauge', True) in fs:
-      wiring.setdefault('Gauge', set()).add(asg[0])
+      wiring.setdefault('Gauge', set()).add(recv[0])
     elif any(c.startswith('self.VARZ_TYPEin') and t for c, t in POS(fs)):
-      wiring.setdefault('Percentile', set()).add(asg[0])
+      wiring.setdefault('Percentile', set()).add(recv[0])
     else:
-      wiring.setdefault('Other', set()).add(asg[0])
+      wiring.setdefault('Other', set()).add(recv[0])
   ok = wiring == {'Gauge': {'VarzReceiver.SetVarz'}, 'Percentile': {'VarzReceiver.RecordPercentileSample'}, 'Other': {'VarzReceiver.IncrementVarz'}}
   ctx.ob('C18.R2', vm, 'metric kinds wired to their receivers', ok, 'wiring is %s' % wiring,
          'a gauge wired to the increment receiver sums values; a counter wired to set loses increments')
